@@ -78,9 +78,10 @@ class Structure:
                 elif e is not None and e[0] == "if" and any(n[0] == "for" for n in rp.walk(e[2])) and e[3] is None:
                     # data movement under a condition: the loops are checked under the condition, and skipping them must
                     # leave the buffer-window invariant intact (nothing was loaded before / nothing is consumed now)
-                    fors = [rp.strip_paren(x[1]) for x in e[2][1] if x[0] == "expr" and rp.strip_paren(x[1])[0] == "for"]
-                    rest = [x for x in e[2][1] if not (x[0] == "expr" and rp.strip_paren(x[1])[0] == "for")]
-                    self.seq.append(("cond-move", e[1], fors, ("if", e[1], ("block", rest, e[2][2]), None, 0)))
+                    items_ = list(e[2][1]) + ([("expr", e[2][2], False, 0)] if e[2][2] is not None else [])
+                    fors = [rp.strip_paren(x[1]) for x in items_ if x[0] == "expr" and rp.strip_paren(x[1])[0] == "for"]
+                    rest = [x for x in items_ if not (x[0] == "expr" and rp.strip_paren(x[1])[0] == "for")]
+                    self.seq.append(("cond-move", e[1], fors, ("if", e[1], ("block", rest, None), None, 0)))
                 elif e is not None and e[0] == "macro":
                     continue
                 else:
